@@ -4,6 +4,10 @@
 (* each text is the uncancelled baseline (cancel point -1), kind: 1 ok, 0 syntax error, 2 the    *)
 (* context's error, 3 anything else; events: number of listener calls; shiftsAtCancel: shifts     *)
 (* performed when cancel() was called (-1: the cancel point was never reached).                   *)
+(* Rows of the shipped parsers (no shift counter exposed) carry lower bounds instead: shifts =  *)
+(* floor(events / 64), shiftsAtCancel = floor(eventsAtCancel / 64) + 1, so shifts - shiftsAtCancel *)
+(* never exceeds the shifts really performed after the cancellation and the invariants below stay  *)
+(* sound (they can only fire when more than CheckEvery shifts certainly happened).                 *)
 EXTENDS Integers, Sequences, FiniteSets, TLC, Json, IOUtils
 Cases == ndJsonDeserialize(IOEnv.VERIF_CASES)
 CheckEvery == 512
